@@ -299,6 +299,17 @@ func c10Gen(tier string, rng *rand.Rand, emit func(string)) map[string]interface
 		out("handler", "seq: "+strings.Join(toks, " ; "))
 	}
 
+	// SubscribeOn called again between publishes (a new handler each time): every later delivery runs on the handler
+	// set last, also behind a Map and when origin and derived publisher both have one
+	for _, lay := range [][]string{
+		{"h", "s", "p:1", "h", "p:2", "s", "p:3", "c"},
+		{"s", "s:u0", "h", "p:1", "h", "s", "p:2", "z", "p:3", "c"},
+		{"m:a", "s@1", "h@1", "p:1", "h@1", "s@1:u-1", "p:2", "h", "p:3", "c@1"},
+		{"s", "p:1", "h", "p:2", "h", "h", "s:n", "p:3", "p:4", "c"},
+	} {
+		out("handler", "seq: "+strings.Join(lay, " ; "))
+	}
+
 	// (5) directed schedules: Publish(1) of goroutine 1 parked after the snapshot (position 0) / before delivery
 	// k (position k), another goroutine performs one or two operations there
 	initScripts := []string{"", "u0", "u+1", "n"}
